@@ -194,7 +194,8 @@ def gen_trees(thorough):
     d1 = []
     for w in (1, 2, 3):
         for combo in itertools.product(items, repeat=w):
-            for name in (None, "NAMEA"):
+            # (a name is used as the key exactly as written: one all-capitals, one with lower-case letters and a digit)
+            for name in (None, "NAMEA") + (("Name_b2",) if w <= 2 else ()):
                 d1.append(("list", name, list(combo)))
     yield from d1
     # representative depth-1 lists used as children
@@ -240,7 +241,8 @@ def undocumented_naming(tree):
 def _rename(lst, i, prefix="NM"):
     """Give sibling named lists distinct names."""
     if lst[1]:
-        return ("list", f"{lst[1]}{prefix}{i}", lst[2])
+        # every second sibling gets a name with lower-case letters: a name is the key exactly as written
+        return ("list", f"{lst[1]}{prefix if i % 2 == 0 else prefix.capitalize() + '_x'}{i}", lst[2])
     return lst
 
 
